@@ -6,17 +6,28 @@
 From RsM Require Export Lib.MachInt Model.Mrp.
 Open Scope N_scope.
 
-Definition PANIC_CTR_OVERFLOW : N := 2.
+(** [Session::get_msg_ctr] at the end of the 32-bit range of a secure session:
+    the send is refused and the session marked expired (the counter is the AEAD
+    nonce, it must not come round) *)
+Definition ERR_CTR_EXHAUSTED : N := 3.
 
 (** * A session's sender side: message counter + exchanges *)
 
 (** an exchange slot: its MRP state and (ghost) the message pending retransmission *)
 Record exslot := mkEx { ex_rm : rm; ex_pending : option N }.
 
-Record sess := mkSess { s_ctr : N; s_ex : list exslot }.
+(** [s_case]: a CASE session (a transmit timeout marks only those expired);
+    [s_expired]: no new exchange may use the session any more *)
+Record sess := mkSess { s_ctr : N; s_ex : list exslot; s_expired : bool; s_case : bool }.
 
-Definition sess_new (ctr0 : N) (nex : nat) : sess :=
-  mkSess (N.land ctr0 268435455) (repeat (mkEx rm_new None) nex).
+Definition sess_new_mode (ctr0 : N) (nex : nat) (case : bool) : sess :=
+  mkSess (N.land ctr0 268435455) (repeat (mkEx rm_new None) nex) false case.
+
+Definition sess_new (ctr0 : N) (nex : nat) : sess := sess_new_mode ctr0 nex true.
+
+(** a session whose counter stands anywhere in the 32-bit range (a long-lived session) *)
+Definition sess_at (ctr : N) (nex : nat) (case : bool) : sess :=
+  mkSess ctr (repeat (mkEx rm_new None) nex) false case.
 
 Fixpoint set_nth {A} (l : list A) (n : nat) (x : A) : list A :=
   match l, n with
@@ -31,8 +42,10 @@ Record wire := mkWire { w_ctr : N; w_ack : option N; w_msg : N }.
 
 (** [Session::pre_send] for exchange [e] sending application message [m]:
     the counter of the pending retransmission entry if there is one, else a
-    fresh counter ([get_msg_ctr]: plain [+= 1], panics on overflow in the
-    checked profile); then [ReliableMessage::pre_send]. *)
+    fresh counter ([get_msg_ctr]: [checked_add(1)]; at the end of the range the
+    send is refused with the session marked expired and nothing else changed);
+    then [ReliableMessage::pre_send]; a transmit timeout marks a CASE session
+    expired. *)
 Definition sess_send (s : sess) (e : nat) (m : N) (reliable : bool) : sess * res wire :=
   match nth_error (s_ex s) e with
   | None => (s, Err 9)
@@ -43,15 +56,17 @@ Definition sess_send (s : sess) (e : nat) (m : N) (reliable : bool) : sess * res
         | Some c => (c, s_ctr s, false)
         | None => (s_ctr s, s_ctr s + 1, two32 <=? s_ctr s + 1)
         end in
-      if overflow then (s, Panic PANIC_CTR_OVERFLOW) else
+      if overflow then (mkSess (s_ctr s) (s_ex s) true (s_case s), Err ERR_CTR_EXHAUSTED) else
       let '(rm', r) := rm_pre_send (ex_rm x) ctr reliable None in
       match r with
       | Ok piggy =>
           let pend := match rm_retr rm' with
                       | Some _ => match retrans_ctr with Some _ => ex_pending x | None => Some m end
                       | None => None end in
-          (mkSess next (set_nth (s_ex s) e (mkEx rm' pend)), Ok (mkWire ctr piggy m))
-      | Err c => (mkSess next (set_nth (s_ex s) e (mkEx rm' None)), Err c)
+          (mkSess next (set_nth (s_ex s) e (mkEx rm' pend)) (s_expired s) (s_case s),
+           Ok (mkWire ctr piggy m))
+      | Err c => (mkSess next (set_nth (s_ex s) e (mkEx rm' None))
+                         (s_expired s || (s_case s && (c =? ERR_TX_TIMEOUT))) (s_case s), Err c)
       | Panic p => (s, Panic p)
       end
   end.
@@ -64,7 +79,7 @@ Definition sess_recv (s : sess) (e : nat) (rx_ctr : N) (rx_ack : option N) (reli
   | Some x =>
       let '(rm', r) := rm_post_recv (ex_rm x) rx_ctr rx_ack reliable in
       let pend := match rm_retr rm' with Some _ => ex_pending x | None => None end in
-      (mkSess (s_ctr s) (set_nth (s_ex s) e (mkEx rm' pend)), r)
+      (mkSess (s_ctr s) (set_nth (s_ex s) e (mkEx rm' pend)) (s_expired s) (s_case s), r)
   end.
 
 Inductive sop :=
